@@ -136,6 +136,22 @@ func runC06(c *Collector, r *Rng, thorough bool) {
 			}
 		}
 	}
+	// corpus: minimised inputs of earlier findings and of seeded changes run on every check
+	for _, cs := range []struct{ kind, hex string }{
+		{"DProt", "43a11060"}, {"DUnprot", "a11060"}, {"DProt", "43a10360"}, {"DUnprot", "a10360"}, {"DSign1", "d28443a11060a0f64100"},
+		{"DSign1U", "8443a11060a0f64100"}, {"DSignature", "8343a11060a04100"}, {"DSignMsg", "d8628443a11060a0f6818340a04100"},
+		{"DProt", "45a1036161"}, {"DProt", "44a1106120"},
+		{"DKey", "a20102206161"}, {"DKey", "a201022061"}, {"DKey", "a3010120062358" + "40" + zeros(64)},
+		{"DKey", "a30101200623" + "50" + zeros(16)}, {"DKey", "a3010120062358" + "21" + zeros(33)},
+		{"DKey", "a401012006215820" + zeros(32) + "235840" + zeros(64)}, {"DKey", "a3010220012358" + "42" + zeros(66)},
+		{"DKey", "a30104200623" + "5820" + zeros(32)}, {"DKey", "a4010403272006" + "235820" + zeros(32)},
+	} {
+		in := unhex(cs.hex)
+		d := timed(cs.kind, in)
+		if d.err == nil && !d.paniced {
+			followUps(c, r, cs.kind, in, &d)
+		}
+	}
 	// hostile sizes: huge declared lengths / counts must be refused promptly
 	for _, in := range [][]byte{
 		{0xd2, 0x84, 0x5b, 0x7f, 0xff, 0xff, 0xff, 0xff, 0xff, 0xff, 0xff},
